@@ -1,7 +1,8 @@
 /-
 Executable secp256k1 arithmetic on `Nat` (Jacobian coordinates internally).
 Dependency code (crate `k256`); driver only.  Cross-tested against `k256` by the
-correspondence check, not proved to be a lawful group (see DESIGN §5).
+correspondence check, and proved to compute the group law of the curve in
+`HdwModel/Props/SecpJac.lean` (against the verified affine arithmetic of `SecpAffine.lean`).
 -/
 namespace Hdw.Prim.Secp
 
@@ -10,15 +11,15 @@ def n : Nat := 0xFFFFFFFFFFFFFFFFFFFFFFFFFFFFFFFEBAAEDCE6AF48A03BBFD25E8CD036414
 def gx : Nat := 0x79BE667EF9DCBBAC55A06295CE870B07029BFCDB2DCE28D959F2815B16F81798
 def gy : Nat := 0x483ADA7726A3C4655DA4FBFC0E1108A8FD17B448A68554199C47D08FFB10D4B8
 
-def powMod (b e m : Nat) : Nat := Id.run do
-  let mut result := 1 % m
-  let mut base := b % m
-  let mut e := e
-  for _ in [0:e.log2 + 1] do
-    if e % 2 == 1 then result := result * base % m
-    base := base * base % m
-    e := e / 2
-  return result
+/-- binary modular exponentiation with fuel (LSB first): `acc * b ^ e % m` when `e < 2 ^ fuel` -/
+def powModAux : Nat → Nat → Nat → Nat → Nat → Nat
+  | 0, _, _, m, acc => acc % m
+  | fuel + 1, b, e, m, acc =>
+    if e = 0 then acc % m
+    else powModAux fuel (b * b % m) (e / 2) m (if e % 2 = 1 then acc * b % m else acc)
+
+/-- `b ^ e % m` by square-and-multiply (`log2 e + 1` rounds) -/
+def powMod (b e m : Nat) : Nat := powModAux (e.log2 + 1) b e m 1
 
 def invMod (a m : Nat) : Nat := powMod a (m - 2) m
 
@@ -73,13 +74,16 @@ def Jac.add (P Q : Jac) : Jac :=
       let nz := h * P.z % p * Q.z % p
       ⟨nx, ny, nz⟩
 
-def Jac.mul (k : Nat) (P : Jac) : Jac := Id.run do
-  let mut acc := Jac.inf
-  let bits := k.log2 + 1
-  for i in [0:bits] do
-    acc := acc.double
-    if (k >>> (bits - 1 - i)) % 2 == 1 then acc := acc.add P
-  return acc
+/-- MSB-first double-and-add with fuel: `k • P` when `k < 2 ^ fuel` -/
+def Jac.mulAux : Nat → Nat → Jac → Jac
+  | 0, _, _ => Jac.inf
+  | fuel + 1, k, P =>
+    if k = 0 then Jac.inf
+    else
+      let D := (Jac.mulAux fuel (k / 2) P).double
+      if k % 2 = 1 then D.add P else D
+
+def Jac.mul (k : Nat) (P : Jac) : Jac := Jac.mulAux (k.log2 + 1) k P
 
 def G : Pt := some (gx, gy)
 
